@@ -331,6 +331,18 @@ def check(run):
     run.check(len(rets) == 1 and isinstance(rets[0].value, ast.Dict) and [q.const_str(k) for k in rets[0].value.keys] == ['statechart'] and 'statechart' in keys_read(ii.node, q.param_names(ii.node)[0]),
               r1, 'io', "top-level key 'statechart' written and read", 'wrapper key differs', rets[0] if rets else ei.node)
 
+    # the YAML writer and reader are configured identically
+    yi = run.fn('import_from_yaml')
+    yo = run.fn('export_to_yaml')
+    cfgs = {}
+    for f in (yi, yo):
+        cs = [c for c in q.calls(f.node) if (dotted(c.func) or '').endswith('.YAML')]
+        cfgs[f.short] = sorted((k.arg, q.unparse(k.value)) for c in cs for k in c.keywords) if len(cs) == 1 else None
+    run.check(cfgs[yi.short] is not None and cfgs[yi.short] == cfgs[yo.short], r1, 'io', 'YAML() configured identically for dump and load: %s' % cfgs[yi.short],
+              'reader %s, writer %s' % (cfgs[yi.short], cfgs[yo.short]), yo.node)
+    dumps = [c for c in q.calls(yo.node) if isinstance(c.func, ast.Attribute) and c.func.attr == 'dump']
+    run.check(len(dumps) == 1 and dumps[0].args and 'export_to_dict(' in q.unparse(dumps[0].args[0]) or len(dumps) == 1 and any('export_to_dict' in q.unparse(v) for v, st_ in q.alternatives(yo.node, dumps[0].args[0])),
+              r1, yo.short, 'the dumped document is export_to_dict(statechart)', 'differs', yo.node)
     r2 = run.rule('C11.2', 'for each key, the attribute exported under it = the attribute the imported value is stored in')
     n = 0
     for level in ('statechart', 'state', 'transition', 'contract'):
